@@ -730,3 +730,76 @@ func TestVerifC15Route(t *testing.T) {
 		}
 	}
 }
+
+// TestVerifC16SlowReader: a peer that stops reading for a while (back-pressure through the whole bridge)
+// must not be cut off: nobody has closed, so nobody may see end-of-stream, and when it resumes it gets
+// every byte.
+func TestVerifC16SlowReader(t *testing.T) {
+	out := verifOpenOut(t)
+	defer out.close()
+	const total = 48 << 20
+	pause := 12 * time.Second
+	type srvRes struct {
+		written int
+		err     string
+	}
+	sres := make(chan srvRes, 1)
+	b := startVerifBridge(t, func(sc *verifSrvConn) {
+		buf := make([]byte, 64*1024)
+		for i := range buf {
+			buf[i] = byte(i * 7)
+		}
+		w := 0
+		var werr error
+		for w < total && werr == nil {
+			var n int
+			n, werr = sc.c.Write(buf)
+			w += n
+		}
+		r := srvRes{written: w}
+		if werr != nil {
+			r.err = werr.Error()
+		}
+		sres <- r
+		sc.c.Close()
+	})
+	defer b.stop()
+	c, err := net.Dial("tcp", b.frontAddr)
+	if err != nil {
+		out.emit(map[string]interface{}{"kind": "slow-reader", "err": err.Error()})
+		return
+	}
+	defer c.Close()
+	got := 0
+	buf := make([]byte, 256*1024)
+	for got < 1<<20 {
+		n, err := c.Read(buf)
+		got += n
+		if err != nil {
+			break
+		}
+	}
+	time.Sleep(pause)
+	var rerr error
+	c.SetReadDeadline(time.Now().Add(60 * time.Second))
+	for got < total {
+		var n int
+		n, rerr = c.Read(buf)
+		got += n
+		if rerr != nil {
+			break
+		}
+	}
+	res := map[string]interface{}{"kind": "slow-reader", "sent_target": total, "client_received": got, "pause_ms": pause.Milliseconds()}
+	if rerr != nil {
+		res["client_err"] = rerr.Error()
+	}
+	select {
+	case r := <-sres:
+		res["server_written"] = r.written
+		res["server_err"] = r.err
+	case <-time.After(10 * time.Second):
+		res["server_err"] = "server still writing"
+	}
+	out.emit(res)
+}
